@@ -131,6 +131,11 @@ def oracle2(case, out, fu, fu_out):
         if a is None:
             continue
         end = b["rdata_at"] + b["rdlen"]
+        # the owner name may be a pointer to an earlier position whose labels run FORWARD past this record's end (legal
+        # per RFC 1035 4.1.4, which only asks the pointer to go backwards): then the name is not decodable from the message
+        # cut at the record's end, and the property (RDATA from exactly RDLENGTH bytes) does not speak about it
+        if dns.rfc_decode_name(d[:end], b["start"]) is None and dns.rfc_decode_name(d, b["start"]) is not None:
+            continue
         want = "OK " + " ".join(dns.rr_toks(a) + ["%x" % end])
         if o != want:
             return ("record at offset %d: the packet shows %r but parsing exactly its RDLENGTH-delimited bytes gives %r"
